@@ -14,8 +14,14 @@ no-op.  Afterwards
 * the scheduled view is refreshed by calling the real `_scheduled_watch` with
   the children of /scheduled in the order the event says (sorted, reversed,
   interleaved - ZooKeeper returns children in no particular order),
-* a monitor is created / reconfigured / deleted by writing the tiny ZooKeeper
-  and delivering the data / children watch events to the real callbacks,
+* a monitor is created / reconfigured / deleted by the USER's real entry
+  points: `treadmill.api.app_monitor.API().create / update / delete` (through
+  `__wrapped__`, the schema decorator cannot run here) and below them the real
+  `scheduler.masterapi.update_appmonitor / get_appmonitor / delete_appmonitor`
+  and `zkutils.put / get / ensure_deleted` on the tiny ZooKeeper, whose
+  create / set / delete deliver the children / data watch events to the real
+  callbacks.  Updates exist in the three payload shapes the REST schema allows
+  (count only, policy only, both).  The harness never writes a monitor node,
 * `reevaluate` (the real one) is called with the captured `state`.
 
 Nothing of the glue is mirrored any more.  Fakes: `restclient.post` (records
@@ -25,7 +31,8 @@ killing the worker), the virtual clock.  The oracle is a continuous-time token
 bucket per monitor (capacity 2*count, refill 2*count per hour, decremented by
 successful creations only, reset when the monitor is (re)configured) plus the
 clauses of the property statement; instance age is the harness's own creation
-order, never the implementation's grouping.
+order, never the implementation's grouping; the policy is the one the user
+configured last (a count-only update leaves it alone), never what is stored.
 """
 import collections
 import copy
@@ -45,6 +52,8 @@ vclock.install()
 import kazoo.exceptions  # noqa: E402
 
 from treadmill.sproc import appmonitor as am  # noqa: E402
+from treadmill.api import app_monitor as apimod  # noqa: E402
+from treadmill.scheduler import masterapi  # noqa: E402
 from treadmill import restclient  # noqa: E402
 from treadmill import utils as tm_utils  # noqa: E402
 from treadmill import zknamespace as z  # noqa: E402
@@ -142,6 +151,63 @@ class TinyZk:
         for func in list(self.child_cb.get(path, [])):
             func(children)
 
+    # -- the part of the kazoo API that zkutils.put / get / ensure_deleted
+    #    (below masterapi.update_appmonitor / delete_appmonitor) use; watch
+    #    events are delivered synchronously, data watch before children watch
+    @staticmethod
+    def make_default_acl(_acl):
+        return None
+
+    def set_acls(self, path, _acl):
+        if path not in self.nodes:
+            raise kazoo.exceptions.NoNodeError(path)
+
+    def exists(self, path, watch=None):
+        if watch is not None:
+            raise NotImplementedError('exists watch')
+        return self.nodes[path][1] if path in self.nodes else None
+
+    def get_children(self, path, watch=None):
+        if watch is not None:
+            raise NotImplementedError('one-shot children watch')
+        if path not in self.nodes and path != SCHEDULED:
+            raise kazoo.exceptions.NoNodeError(path)
+        if path in (APPMON, SCHEDULED):
+            return self.children(path)
+        return []
+
+    def create(self, path, value=b'', acl=None, ephemeral=False,
+               sequence=False, makepath=False):
+        if ephemeral or sequence:
+            raise NotImplementedError('ephemeral / sequence nodes')
+        parent = path.rpartition('/')[0]
+        if parent != APPMON:
+            raise NotImplementedError('create outside %s' % APPMON)
+        if path in self.nodes:
+            raise kazoo.exceptions.NodeExistsError(path)
+        self.write(path, value)
+        self.fire_children(APPMON, self.children(APPMON))
+        return path
+
+    def set(self, path, value, version=-1):
+        if path not in self.nodes:
+            raise kazoo.exceptions.NoNodeError(path)
+        if version not in (-1, self.nodes[path][1].version):
+            raise kazoo.exceptions.BadVersionError(path)
+        self.write(path, value)
+        self.fire_data(path, 'CHANGED')
+        return self.nodes[path][1]
+
+    def delete(self, path, version=-1, recursive=False):
+        if path not in self.nodes:
+            raise kazoo.exceptions.NoNodeError(path)
+        if path == APPMON or path.rpartition('/')[0] != APPMON:
+            raise NotImplementedError('delete outside %s' % APPMON)
+        del self.nodes[path]
+        self.zxid += 1
+        self.fire_data(path, 'DELETED')
+        self.fire_children(APPMON, self.children(APPMON))
+
 EPS = 1e-9
 ANSWERS = ('ok', '404', '400', 'val', 'boom')
 VALID_POLICIES = (None, 'fifo', 'lifo')
@@ -154,6 +220,12 @@ class _Resp:
 
 
 _CUR = {'world': None}
+_API = apimod.API()
+
+
+def _unwrapped(func):
+    """The schema decorator cannot run in this environment."""
+    return getattr(func, '__wrapped__', func)
 
 
 def _fake_post(api, url, payload=None, headers=None, **_kw):
@@ -204,6 +276,7 @@ class MonWorld:
         self.stats = collections.Counter()
         self.defs = {}          # monitor nodes in ZK: name -> (count, policy)
         self.policy = {}        # policy a name is (re)created with
+        self.how = {}           # name -> the user's last configuration request
         self.inst = {n: [] for n in cfg['names']}   # creation (= age) order
         self.seq = 0
         self.zk_written = []
@@ -253,10 +326,12 @@ class MonWorld:
 
     def _reset_ref(self, name, count):
         conf = self.state['monitors'].get(name)
-        if conf is None:
-            raise HarnessGlue('monitor %s not loaded by the watch' % name)
-        self.ref[name] = {'B': 2.0 * count, 't': conf['last_update'],
-                          'c': count}
+        # a configured monitor that the real configuration path / watch glue
+        # did not bring to the daemon is judged like any other (no-progress,
+        # surplus-not-deleted): its budget is full as of now
+        t = conf['last_update'] if conf is not None \
+            else BASE + CLOCK.L + CLOCK.k * TAU
+        self.ref[name] = {'B': 2.0 * count, 't': t, 'c': count}
 
     def children(self, order):
         """Children of /scheduled as ZooKeeper might return them."""
@@ -275,29 +350,79 @@ class MonWorld:
         finally:
             self._leave()
 
-    def _ev_mon(self, name, count, policy):
-        data = {'count': count}
-        if policy is not None:
-            data['policy'] = policy
+    # -- the user configures a monitor through the real API ---------------------
+    def _node(self, name):
+        """What is stored for the monitor in ZooKeeper (None: no node)."""
+        got = self.zk.nodes.get(z.path.appmonitor(name))
+        if got is None:
+            return None
+        try:
+            return json.loads(got[0].decode())
+        except Exception:  # pylint: disable=broad-except
+            return {'unparsable': repr(got[0])}
+
+    def _configure(self, name, route, rsrc):
+        """One configuration request of the user.  `route` is create (POST
+        /app-monitor/<name>), update (PUT) or raw (masterapi called directly,
+        for a policy the REST schema would refuse); `rsrc` is the payload, in
+        which an absent key means "leave it as it is"."""
         path = z.path.appmonitor(name)
-        existed = name in self.defs
+        old = self.defs.get(name)
+        if route == 'update' and old is None:
+            raise HarnessGlue('update of a monitor that does not exist')
+        count = rsrc.get('count', old[0] if old else None)
+        policy = rsrc.get('policy', old[1] if old else None)
+        if 'policy' in rsrc and rsrc['policy'] is None:
+            raise HarnessGlue('a null policy in a payload is not in the menu '
+                              '(the API cannot tell it from an absent one)')
+        before = self.zk.nodes.get(path)
+        apimod.context = types.SimpleNamespace(GLOBAL=types.SimpleNamespace(
+            zk=types.SimpleNamespace(conn=self.zk), cell='cell'))
+        if route == 'raw':
+            masterapi.update_appmonitor(self.zk, name, rsrc.get('count'),
+                                        rsrc.get('policy'))
+        else:
+            _unwrapped(getattr(_API, route))(name, dict(rsrc))
+        after = self.zk.nodes.get(path)
         self.defs[name] = (count, policy)
         self.policy[name] = policy
-        self.zk.write(path, json.dumps(data).encode())
-        if existed:
-            # masterapi.update_appmonitor: data watch fires
-            self.zk.fire_data(path, 'CHANGED')
+        self.how[name] = '%s(%s)' % (
+            {'create': 'api.app_monitor.create',
+             'update': 'api.app_monitor.update',
+             'raw': 'masterapi.update_appmonitor'}[route],
+            '+'.join(sorted(rsrc)))
+        self.stats['config_' + self.how[name]] += 1
+        if after is not before or old != self.defs[name]:
+            # the monitor was (re)configured: the budget starts full
+            self._reset_ref(name, count)
+
+    def _ev_mon(self, name, count, policy):
+        """Create the monitor, or update count and policy together."""
+        rsrc = {'count': count}
+        if policy is not None:
+            rsrc['policy'] = policy
+        if policy not in VALID_POLICIES:
+            route = 'raw'
+        elif name in self.defs:
+            route = 'update'
         else:
-            # new node: the children watch adds the data watch, which loads it
-            self.zk.fire_children(APPMON, self.zk.children(APPMON))
-        self._reset_ref(name, count)
+            route = 'create'
+        self._configure(name, route, rsrc)
+
+    def _ev_cnt(self, name, count):
+        """PUT {"count": n}: the usual scale request, the policy stays."""
+        self._configure(name, 'update', {'count': count})
+
+    def _ev_pol(self, name, policy):
+        """PUT {"policy": p}: the target count stays."""
+        self._configure(name, 'update', {'policy': policy})
 
     def _ev_del(self, name):
-        path = z.path.appmonitor(name)
+        apimod.context = types.SimpleNamespace(GLOBAL=types.SimpleNamespace(
+            zk=types.SimpleNamespace(conn=self.zk), cell='cell'))
+        _unwrapped(_API.delete)(name)
         del self.defs[name]
-        del self.zk.nodes[path]
-        self.zk.fire_data(path, 'DELETED')
-        self.zk.fire_children(APPMON, self.zk.children(APPMON))
+        self.how.pop(name, None)
         self.ref.pop(name, None)
 
     def _ev_tick(self, secs):
@@ -357,6 +482,25 @@ class MonWorld:
     # -- oracle ---------------------------------------------------------------
     def _v(self, clause, site, **detail):
         self.viol.append({'clause': clause, 'site': site, 'detail': detail})
+
+    def _mismatch(self, name):
+        """None, or how the monitor node stored in ZooKeeper differs from what
+        the user configured (then the configuration path lost it, not the
+        evaluation): used to name the site only, never to judge."""
+        if name not in self.defs:
+            return None
+        count, policy = self.defs[name]
+        node = self._node(name)
+        if not isinstance(node, dict) or 'count' not in node:
+            return '%s/monitor-not-stored' % self.how.get(name)
+        if node['count'] != count:
+            return '%s/stored-count-differs' % self.how.get(name)
+        if (node.get('policy') or 'fifo') != (policy or 'fifo'):
+            return '%s/stored-policy-differs' % self.how.get(name)
+        return None
+
+    def _site(self, name, base):
+        return self._mismatch(name) or base
 
     def _judge(self, now, pre_susp, pre_inst):
         creates = collections.defaultdict(list)   # app -> [(k, answer)]
@@ -419,21 +563,29 @@ class MonWorld:
             if cr:
                 self.stats['create_requests'] += 1
                 if k > max(missing, 0):
-                    self._v('create-exceeds-missing', 'reevaluate/scale-up',
-                            **info)
+                    self._v('create-exceeds-missing',
+                            self._site(app, 'reevaluate/scale-up'), **info)
                 if k > math.floor(level + EPS):
-                    self._v('create-exceeds-budget', 'reevaluate/scale-up',
-                            **info)
+                    self._v('create-exceeds-budget',
+                            self._site(app, 'reevaluate/scale-up'), **info)
                 if any(n < 1 for n, _a in cr):
                     self._v('create-nonpositive-count', 'reevaluate/scale-up',
                             **info)
             elif not suspended and missing >= 1:
                 if math.floor(level - EPS) >= 1:
-                    self._v('no-progress', 'reevaluate/scale-up', **info)
+                    self._v('no-progress',
+                            self._site(app, 'reevaluate/scale-up'), **info)
                 else:
                     self.stats['rate_limited'] += 1
             if de:
                 self.stats['delete_requests'] += 1
+                how = self.how.get(app, '')
+                if how.endswith('update(count)') and policy is not None:
+                    self.stats['deletes_after_count_only_update_%s'
+                               % policy] += 1
+                elif how.endswith('update(policy)'):
+                    self.stats['deletes_after_policy_only_update_%s'
+                               % policy] += 1
                 if policy in VALID_POLICIES:
                     if surplus <= 0:
                         exp = []
@@ -442,9 +594,17 @@ class MonWorld:
                     else:
                         exp = cur[:surplus]
                     if sorted(dl) != sorted(exp):
-                        self._v('delete-not-exact-surplus',
-                                'reevaluate/scale-down',
-                                deleted=dl, expected=exp, have=cur, **info)
+                        # exactly as many as the surplus, all of them running
+                        # instances of the application, but from the wrong end
+                        by_number = surplus > 0 and \
+                            len(set(dl)) == len(dl) == surplus and \
+                            all(i in cur for i in dl)
+                        self._v('delete-not-by-configured-policy' if by_number
+                                else 'delete-not-exact-surplus',
+                                self._site(app, 'reevaluate/scale-down'),
+                                deleted=dl, expected=exp, have=cur,
+                                stored=self._node(app),
+                                configured_by=self.how.get(app), **info)
                 else:
                     # the statement does not say what an unknown policy
                     # deletes; it still may not be more than the surplus
@@ -452,10 +612,13 @@ class MonWorld:
                             len(dl) > max(surplus, 0) or \
                             any(i not in cur for i in dl):
                         self._v('delete-not-exact-surplus',
-                                'reevaluate/scale-down',
+                                self._site(app, 'reevaluate/scale-down'),
                                 deleted=dl, have=cur, **info)
             elif not suspended and surplus >= 1 and policy in VALID_POLICIES:
-                self._v('surplus-not-deleted', 'reevaluate/scale-down', **info)
+                self._v('surplus-not-deleted',
+                        self._site(app, 'reevaluate/scale-down'),
+                        stored=self._node(app),
+                        configured_by=self.how.get(app), **info)
             elif surplus >= 1 and policy not in VALID_POLICIES:
                 self.stats['invalid_policy_skips'] += 1
 
@@ -506,10 +669,23 @@ class MonWorld:
                 evs.append(('die', name, 'new'))
             if n < cfg['max_instances']:
                 evs.append(('extra', name))
+            if name not in self.defs:
+                # POST: (re)created with the policy it was configured with last
+                evs += [('mon', name, c, self.policy.get(name))
+                        for c in cfg['counts']]
+                continue
+            cur_c, cur_p = self.defs[name]
             for c in cfg['counts']:
-                if name not in self.defs or self.defs[name][0] != c:
-                    evs.append(('mon', name, c, self.policy.get(name)))
-            if name in self.defs and cfg.get('delete', True):
+                if c == cur_c:
+                    continue
+                # PUT {"count": c}; and PUT with the policy repeated
+                evs.append(('cnt', name, c))
+                if cur_p is not None and cfg.get('full_updates'):
+                    evs.append(('mon', name, c, cur_p))
+            for p in cfg.get('policies', ()):
+                if p != cur_p:
+                    evs.append(('pol', name, p))        # PUT {"policy": p}
+            if cfg.get('delete', True):
                 evs.append(('del', name))
         if cfg.get('restart'):
             evs.append(('restart',))
@@ -533,7 +709,8 @@ class MonWorld:
             r = None if r is None else (units(r['B'], r['c']),
                                         self.L - logical(r['t']))
             out.append((name, d, self.policy.get(name), c, s, r,
-                        len(self.inst[name]), name in self.last_waited))
+                        len(self.inst[name]), name in self.last_waited,
+                        self._mismatch(name)))
         extra_susp = sorted(set(self.state['suspended']) -
                             set(self.cfg['names']))
         # the order in which reevaluate visits the monitors (dict insertion
